@@ -4,7 +4,11 @@
 
 package trend
 
-import "github.com/cinar/indicator/v2/helper"
+import (
+	"math"
+
+	"github.com/cinar/indicator/v2/helper"
+)
 
 // MovingMin represents the configuration parameters for calculating the
 // Moving Min over the specified period.
@@ -37,13 +41,17 @@ func (m *MovingMin[T]) Compute(c <-chan T) <-chan T {
 	count := 0
 
 	mins := helper.Operate(cs[0], cs[1], func(c, b T) T {
-		bst.Insert(c)
+		// A NaN can neither be ordered nor be found again: keep it
+		// out of the tree, as it would otherwise stay in it forever.
+		if !math.IsNaN(float64(c)) {
+			bst.Insert(c)
+		}
 
 		// The first Period values of the shifted stream are fill
 		// values, not members of the window.
 		if count < m.Period {
 			count++
-		} else {
+		} else if !math.IsNaN(float64(b)) {
 			bst.Remove(b)
 		}
 
